@@ -78,7 +78,10 @@ func committeeCountRule(c *Ctx) {
 		c.unm(key, fd.Pos(), "no single-result return")
 		return
 	}
-	// (i) written with the min/max builtins
+	// (i) written with the min/max builtins (a clamp written as a branch is the builtin after load), the returned
+	// variable read through its reaching definitions
+	polyReach, polyPaths = reachingDefs(info, fd.Body), true
+	defer func() { polyReach, polyPaths = nil, false }()
 	if rp, ok := exprPoly(info, ret, defs, nil, 0); ok {
 		inner := "min(" + strings.Join(sortedStrings([]string{maxA.String(), strings.NewReplacer("*", "·", " ", "").Replace(base.String())}), ";") + ")"
 		want := "max(" + strings.Join(sortedStrings([]string{"1", inner}), ";") + ")"
@@ -121,6 +124,18 @@ func committeeCountRule(c *Ctx) {
 	ast.Inspect(fd.Body, func(n ast.Node) bool {
 		switch s := n.(type) {
 		case *ast.AssignStmt:
+			if len(s.Lhs) == 1 && len(s.Rhs) == 1 && s.Tok == token.ASSIGN {
+				if id, ok := s.Lhs[0].(*ast.Ident); ok && info.ObjectOf(id) == xo {
+					if p, ok := exprPoly(info, s.Rhs[0], nil, nil, 0); ok {
+						switch p.String() {
+						case "min(" + strings.Join(sortedStrings([]string{maxA.String(), x}), ";") + ")":
+							clamp = true
+						case "max(" + strings.Join(sortedStrings([]string{"1", x}), ";") + ")":
+							floor = true
+						}
+					}
+				}
+			}
 			if len(s.Lhs) == 1 && len(s.Rhs) == 1 && s.Tok == token.DEFINE {
 				if id, ok := s.Lhs[0].(*ast.Ident); ok && info.ObjectOf(id) == xo {
 					if p, ok := exprPoly(info, s.Rhs[0], defs, nil, 0); ok {
